@@ -1,8 +1,8 @@
 """C05 (partial): every trie operation routes every TrieStorage variant to a back end of the same
 strategy that consumes the key; create_storage maps each strategy to its storage; num_keys is
-maintained only by insert/remove/clear."""
+maintained only by insert/remove/clear; the Patricia pruning loop of remove stops at final nodes (R-PRUNE)."""
 from vlib import fixtures
-from rules import variant
+from rules import variant, prune
 from vlib.mir import Fn, op_place, rv_operands
 from vlib.run import Broken
 
@@ -15,7 +15,10 @@ OPS = ("::insert", "::contains", "::remove", "::keys", "::keys_with_prefix",
 
 def run(ctx):
     fx = ctx.facts("default")
-    fixtures.run(ctx, ['variant'])
+    fixtures.run(ctx, ['variant', 'prune'])
+    # removal unlinks dead-end chains but stops at nodes that are keys themselves
+    prune.run(ctx, fx, FILE, "fsa::zipora_trie::PatriciaNode")
+    ctx.floor("R-PRUNE.unlink_loops", 1)
     ops = variant.run(ctx, fx, FILE, ENUM, "ZiporaTrie::storage",
                       only=lambda fid: any(fid.endswith(o) for o in OPS))
     ctx.floor("R-VARIANT.operations", 8)
